@@ -287,6 +287,11 @@ fn gen_bad(rng: &mut Rng, entries: &[Entry]) -> Bad {
                     "PKGPATH\t=a/b",
                     "CONFLICT=x",
                     "\u{feff}COMMENT=x",
+                    "Gr\u{f6}\u{df}e=4321",
+                    "\u{e9}=1",
+                    "\u{65e5}\u{672c}=x",
+                    "COMMENT\u{e9}=x",
+                    "\u{1f600}\u{1f600}=x=y",
                 ])
                 .to_string(),
         },
